@@ -121,13 +121,25 @@ func init() {
 		}
 		a, isA := ra.val.(rel.Relation)
 		b, isB := rb.val.(rel.Relation)
-		if !isA || !isB {
-			out["st"] = "skip"
-			out["why"] = fmt.Sprintf("operands are %T and %T", ra.val, rb.val)
-			return out
+		var ea, eb rel.Expr = a, b
+		generic := !isA || !isB
+		if generic {
+			// the generic engine (GenericJoin): the operands are reported by their members
+			sa, okA := ra.val.(rel.Set)
+			sb, okB := rb.val.(rel.Set)
+			if !okA || !okB {
+				out["st"] = "skip"
+				out["why"] = fmt.Sprintf("operands are %T and %T", ra.val, rb.val)
+				return out
+			}
+			out["generic"] = fmt.Sprintf("%T x %T", ra.val, rb.val)
+			out["ga"] = dump(sa, 0)
+			out["gb"] = dump(sb, 0)
+			ea, eb = sa, sb
+		} else {
+			out["a"] = layout(a)
+			out["b"] = layout(b)
 		}
-		out["a"] = layout(a)
-		out["b"] = layout(b)
 		type res struct {
 			v     rel.Value
 			err   error
@@ -145,7 +157,7 @@ func init() {
 				ch <- r
 			}()
 			ctx := arraictx.InitRunCtx(context.Background())
-			r.v, r.err = ctor(*parser.NewScanner(""), a, b).Eval(ctx, rel.EmptyScope)
+			r.v, r.err = ctor(*parser.NewScanner(""), ea, eb).Eval(ctx, rel.EmptyScope)
 		}()
 		select {
 		case r := <-ch:
